@@ -155,6 +155,52 @@ theorem c_heap_strndup_inv (c : CHeap) (st : Nat) (ts : List Bytes) (src : Bytes
     refine ⟨ofModel h', by rw [hm]; rfl, hsize, ?_⟩
     rw [toModel_ofModel _ hi'.oob]; exact hi'
 
+/-- a text stored by the GENERATED scpiheap_strndup is read back unmodified: under the heap invariant, when the call returns a
+pointer, the text that pointer denotes (what the generated scpiheap_get_parts delimits, `c_heap_get_parts`, and
+SCPI_ResultError emits) is exactly `(cstr src).take n` -/
+theorem c_heap_strndup_readable (c : CHeap) (st : Nat) (ts : List Bytes) (src : Bytes) (n : Nat)
+    (hsz : c.size < 18446744073709551616) (hi : Lemmas.Heap.HInv (toModel c) st ts) (hs : SrcOK src n) (hn : 1 ≤ n)
+    (c' : CHeap) (p : Nat) (h : scpiheap_strndup (some c) (some src) n = (some c', some p, false)) :
+    textAt (toModel c') p = some ((cstr src).take n) := by
+  obtain ⟨_, hr⟩ := c_heap_strndup_inv c st ts src n hsz hi hs hn
+  rcases hr with hr | ⟨c'', hr, hsize, hi'⟩
+  · rw [h] at hr; simp at hr
+  · rw [h] at hr
+    simp only [Prod.mk.injEq, Option.some.injEq, and_true] at hr
+    obtain ⟨rfl, rfl⟩ := hr
+    obtain ⟨hh, hoff, hfit, hg⟩ := Lemmas.Heap.hinv_holds (ts1 := ts) (ts2 := []) hi'
+    rw [toModel_size, hsize] at hh hoff
+    exact (Lemmas.Heap.getParts_of_holds (toModel c') _ _ hi'.len (by rw [toModel_size, hsize]; exact hoff) hfit hg hh).2
+
+/-- `fits_means_stored` at the level of the generated heap functions: a non-empty NUL-free text shorter than an EMPTY heap
+(the state scpiheap_init leaves, `c_heap_init`) is stored by the generated scpiheap_strndup at offset 0 and read back
+unmodified -/
+theorem c_heap_fits_means_stored (N : Nat) (hN : N < 18446744073709551616) (s : Bytes) (hs : s.all (· ≠ 0) = true)
+    (hne : s ≠ []) (hfit : s.length < N) (n : Nat) (hn : s.length ≤ n) :
+    ∃ c', scpiheap_strndup (some (ofModel (Heap.init N))) (some (s ++ [0])) n = (some c', some 0, false) ∧
+      textAt (toModel c') 0 = some s := by
+  have hnz : ∀ b ∈ s, b ≠ 0 := by simpa using hs
+  have hcs : cstr (s ++ [0]) = s := Lemmas.Heap.takeWhile_text s [] hnz
+  have hT : (cstr (s ++ [0])).take n = s := by rw [hcs]; exact List.take_of_length_le hn
+  have hpos : 0 < s.length := List.length_pos_iff.mpr hne
+  have hso : SrcOK (s ++ [0]) n := ⟨by simp; omega, by rw [hT]; simp⟩
+  have hi : Lemmas.Heap.HInv (toModel (ofModel (Heap.init N))) 0 [] := by
+    rw [toModel_ofModel _ rfl]; exact Lemmas.Heap.hinv_init N
+  have hsz : (ofModel (Heap.init N)).size < 18446744073709551616 := hN
+  obtain ⟨h', hm, _⟩ := Lemmas.Heap.strndup_ok (Heap.init N) (s ++ [0]) n (by simp [Heap.init]) (by simp [Heap.init]; omega)
+    (by cases N with
+        | zero => omega
+        | succ k => simp [Heap.init, List.replicate_succ]) (by rw [hcs]; exact hne) (by rw [hT]; simp [Heap.init]; omega) (by simp [Heap.init])
+  have hg := c_heap_strndup (ofModel (Heap.init N)) (s ++ [0]) n (c_heap_init_wf N hN) hso
+  rw [toModel_ofModel _ rfl, hm] at hg
+  refine ⟨ofModel h', hg, ?_⟩
+  have := c_heap_strndup_readable (ofModel (Heap.init N)) 0 [] (s ++ [0]) n hsz hi hso (by omega) (ofModel h') 0 hg
+  rw [hT] at this; exact this
+-- "AB" into an empty 6-byte heap: stored at offset 0, and what get_parts delimits there is "AB"
+example : scpiheap_strndup (some (ofModel (Heap.init 6))) (some [65, 66, 0]) 255 =
+    (some ⟨3, 3, 6, [65, 66, 0, 0, 0, 0]⟩, some 0, false) := by decide
+example : textAt (toModel ⟨3, 3, 6, [65, 66, 0, 0, 0, 0]⟩) 0 = some [65, 66] := by decide
+
 /-- the refinement statement as a decidable check on one input (non-vacuity of `c_heap_strndup` on concrete states) -/
 def strndupAgrees (c : CHeap) (src : List UInt8) (n : Nat) : Bool :=
   decide (scpiheap_strndup (some c) (some src) n =
